@@ -375,3 +375,252 @@ Proof.
   - destruct xs; [reflexivity | discriminate].
   - intros H. destruct xs as [|x t]; [congruence|]. eexists. split; [reflexivity|]. now apply w_mean_eq.
 Qed.
+
+(* ====================================================================== *)
+(* laws: swapping the samples, affine maps of the data                     *)
+(* ====================================================================== *)
+Definition tres_same (r r' : tres) : Prop :=
+  t_n1 r' = t_n1 r /\ t_n2 r' = t_n2 r /\ t_sign r' = t_sign r /\ t_sq r' == t_sq r /\ t_dof r' == t_dof r.
+Definition tres_swapped (r r' : tres) : Prop :=
+  t_n1 r' = t_n2 r /\ t_n2 r' = t_n1 r /\ t_sign r' = (- t_sign r)%Z /\ t_sq r' == t_sq r /\ t_dof r' == t_dof r.
+(* same error, or both results related *)
+Definition tout_rel (R : tres -> tres -> Prop) (a b : tout) : Prop :=
+  match a, b with
+  | TOk r, TOk r' => R r r'
+  | TErr e, TErr e' => e = e'
+  | _, _ => False
+  end.
+
+Lemma Qsign_swap a b : Qsign (b - a) = (- Qsign (a - b))%Z.
+Proof. rewrite <- Qsign_opp. apply Qsign_ext. ring. Qed.
+
+(* T -> -T, same T^2 and DoF, sizes exchanged; same error if any *)
+Theorem two_sample_swap x1 x2 : tout_rel tres_swapped (two_sample x1 x2) (two_sample x2 x1).
+Proof.
+  unfold two_sample. rewrite (orb_comm (length x2 =? 0)%nat).
+  destruct ((length x1 =? 0)%nat || (length x2 =? 0)%nat); [reflexivity|].
+  rewrite (andb_comm (is_zero (w_variance x2))).
+  destruct (is_zero (w_variance x1) && is_zero (w_variance x2)); [reflexivity|].
+  cbn [tout_rel]. unfold tres_swapped. cbn [t_n1 t_n2 t_sign t_sq t_dof]. repeat split.
+  - apply Qsign_swap.
+  - rewrite !Qred_correct. unfold Qdiv. apply Qmult_comp; [ring|]. apply Qinv_comp.
+    apply Qmult_comp; [|ring]. apply Qmult_comp; [ring|]. apply Qinv_comp. ring.
+  - rewrite !Qred_correct. ring.
+Qed.
+Theorem welch_swap x1 x2 : tout_rel tres_swapped (welch x1 x2) (welch x2 x1).
+Proof.
+  unfold welch. rewrite (orb_comm (length x2 <=? 1)%nat).
+  destruct ((length x1 <=? 1)%nat || (length x2 <=? 1)%nat); [reflexivity|].
+  rewrite (andb_comm (is_zero (w_variance x2))).
+  destruct (is_zero (w_variance x1) && is_zero (w_variance x2)); [reflexivity|].
+  cbn [tout_rel]. unfold tres_swapped. cbn [t_n1 t_n2 t_sign t_sq t_dof]. repeat split.
+  - apply Qsign_swap.
+  - rewrite !Qred_correct. unfold Qdiv. apply Qmult_comp; [ring|]. apply Qinv_comp. ring.
+  - rewrite !Qred_correct. unfold Qdiv. apply Qmult_comp; [ring|]. apply Qinv_comp. ring.
+Qed.
+
+(* ---------- affine maps ---------- *)
+Lemma lenQ_map (f : Q -> Q) l : lenQ (map f l) = lenQ l.
+Proof. unfold lenQ. now rewrite map_length. Qed.
+Lemma Qsum_affine a b l : Qsum (map (fun x => a * x + b) l) == a * Qsum l + lenQ l * b.
+Proof.
+  induction l as [|x t IH]; cbn [map Qsum]; [change (lenQ []) with 0; ring|]. rewrite IH, lenQ_cons. ring.
+Qed.
+Lemma mean_def_affine a b l : l <> [] -> mean_def (map (fun x => a * x + b) l) == a * mean_def l + b.
+Proof.
+  intros H. unfold mean_def. rewrite lenQ_map, Qsum_affine. pose proof (lenQ_pos l H). field. lra.
+Qed.
+Lemma ssd_affine a b c l : ssd (a * c + b) (map (fun x => a * x + b) l) == a * a * ssd c l.
+Proof.
+  unfold ssd. induction l as [|x t IH]; cbn [map Qsum]; [ring|]. rewrite IH. ring.
+Qed.
+Lemma ssd_ext c c' l : c == c' -> ssd c l == ssd c' l.
+Proof. intros H. rewrite !ssd_expand, H. reflexivity. Qed.
+Lemma var_def_affine a b l : l <> [] -> var_def (map (fun x => a * x + b) l) == a * a * var_def l.
+Proof.
+  intros H. unfold var_def. rewrite lenQ_map.
+  rewrite (ssd_ext _ (a * mean_def l + b)) by (now apply mean_def_affine).
+  rewrite ssd_affine. unfold Qdiv. ring.
+Qed.
+Lemma w_mean_affine a b l : l <> [] -> w_mean (map (fun x => a * x + b) l) == a * w_mean l + b.
+Proof.
+  intros H. rewrite !w_mean_eq; auto; [now apply mean_def_affine|]. destruct l; [congruence | discriminate].
+Qed.
+Lemma w_variance_affine a b l : w_variance (map (fun x => a * x + b) l) == a * a * w_variance l.
+Proof.
+  destruct (Nat.le_gt_cases (length l) 1) as [H|H].
+  - unfold w_variance. rewrite map_length. apply Nat.leb_le in H. rewrite H. ring.
+  - rewrite !w_variance_eq by (rewrite ?map_length; lia). apply var_def_affine. destruct l; [cbn in H; lia | discriminate].
+Qed.
+Lemma is_zero_scale a v v' : ~ a == 0 -> v' == a * a * v -> is_zero v' = is_zero v.
+Proof.
+  intros Ha E. destruct (is_zero v) eqn:Z.
+  - apply is_zero_iff in Z. apply is_zero_iff. rewrite E, Z. ring.
+  - apply is_zero_false in Z. apply is_zero_false. intro C. apply Z. rewrite E in C.
+    apply Qmult_integral in C as [C|C]; [|exact C]. apply Qmult_integral in C as [C|C]; contradiction.
+Qed.
+(* (c a) / (c b) == a / b for c <> 0, also when b == 0 (Q's division is total) *)
+Lemma Qdiv_scale c a b : ~ c == 0 -> (c * a) / (c * b) == a / b.
+Proof.
+  intros Hc. destruct (Qeq_dec b 0) as [Hb|Hb].
+  - unfold Qdiv. rewrite Hb. setoid_replace (c * 0) with 0 by ring. change (/ 0) with 0. ring.
+  - field. split; assumption.
+Qed.
+
+Lemma len_eqb_map (g : Q -> Q) l k : (length (map g l) =? k)%nat = (length l =? k)%nat.
+Proof. now rewrite map_length. Qed.
+Lemma len_leb_map (g : Q -> Q) l k : (length (map g l) <=? k)%nat = (length l <=? k)%nat.
+Proof. now rewrite map_length. Qed.
+Lemma zlen_map (g : Q -> Q) l : zlen (map g l) = zlen l.
+Proof. unfold zlen. now rewrite map_length. Qed.
+
+Section Affine.
+Variables (a b : Q).
+Hypothesis Ha : 0 < a.
+Let f := fun x => a * x + b.
+Let Hane : ~ a == 0. Proof. lra. Qed.
+Let Haa : ~ a * a == 0. Proof. intro C. apply Qmult_integral in C. destruct C; lra. Qed.
+
+(* x -> a x + b (a > 0) on both samples leaves N1, N2, sign T, T^2, DoF (hence P) and errors unchanged *)
+Theorem two_sample_affine x1 x2 : tout_rel tres_same (two_sample x1 x2) (two_sample (map f x1) (map f x2)).
+Proof.
+  unfold two_sample, f. rewrite !len_eqb_map.
+  destruct (length x1 =? 0)%nat eqn:E1; [reflexivity|]. destruct (length x2 =? 0)%nat eqn:E2; [reflexivity|]. cbn [orb].
+  assert (N1 : x1 <> []) by (destruct x1; [discriminate E1 | discriminate]).
+  assert (N2 : x2 <> []) by (destruct x2; [discriminate E2 | discriminate]).
+  rewrite (is_zero_scale a _ _ Hane (w_variance_affine a b x1)), (is_zero_scale a _ _ Hane (w_variance_affine a b x2)).
+  destruct (is_zero (w_variance x1) && is_zero (w_variance x2)); [reflexivity|].
+  cbn [tout_rel]. unfold tres_same. cbn [t_n1 t_n2 t_sign t_sq t_dof]. rewrite !zlen_map, !lenQ_map.
+  repeat split.
+  - rewrite <- (Qsign_scale a (w_mean x1 - w_mean x2) Ha). apply Qsign_ext.
+    rewrite !w_mean_affine by assumption. ring.
+  - rewrite !Qred_correct. rewrite !w_mean_affine, !w_variance_affine by assumption.
+    set (d := w_mean x1 - w_mean x2). set (n1 := lenQ x1). set (n2 := lenQ x2).
+    set (v1 := w_variance x1). set (v2 := w_variance x2).
+    rewrite <- (Qdiv_scale (a * a) (d * d) (((n1 - 1) * v1 + (n2 - 1) * v2) / (n1 + n2 - 2) * (1 / n1 + 1 / n2)) Haa).
+    unfold Qdiv. apply Qmult_comp; [unfold d; ring|]. apply Qinv_comp. ring.
+Qed.
+Theorem welch_affine x1 x2 : tout_rel tres_same (welch x1 x2) (welch (map f x1) (map f x2)).
+Proof.
+  unfold welch, f. rewrite !len_leb_map.
+  destruct (length x1 <=? 1)%nat eqn:E1; [reflexivity|]. destruct (length x2 <=? 1)%nat eqn:E2; [reflexivity|]. cbn [orb].
+  assert (N1 : x1 <> []) by (destruct x1; [discriminate E1 | discriminate]).
+  assert (N2 : x2 <> []) by (destruct x2; [discriminate E2 | discriminate]).
+  rewrite (is_zero_scale a _ _ Hane (w_variance_affine a b x1)), (is_zero_scale a _ _ Hane (w_variance_affine a b x2)).
+  destruct (is_zero (w_variance x1) && is_zero (w_variance x2)); [reflexivity|].
+  cbn [tout_rel]. unfold tres_same. cbn [t_n1 t_n2 t_sign t_sq t_dof]. rewrite !zlen_map, !lenQ_map.
+  set (d := w_mean x1 - w_mean x2). set (n1 := lenQ x1). set (n2 := lenQ x2).
+  set (v1 := w_variance x1). set (v2 := w_variance x2).
+  repeat split.
+  - rewrite <- (Qsign_scale a d Ha). apply Qsign_ext. unfold d.
+    rewrite !w_mean_affine by assumption. ring.
+  - rewrite !Qred_correct. rewrite !w_mean_affine, !w_variance_affine by assumption. fold d v1 v2.
+    rewrite <- (Qdiv_scale (a * a) (d * d) (v1 / n1 + v2 / n2) Haa).
+    unfold Qdiv. apply Qmult_comp; [unfold d; ring|]. apply Qinv_comp. ring.
+  - rewrite !Qred_correct. rewrite !w_variance_affine. fold v1 v2.
+    assert (H4 : ~ a * a * (a * a) == 0) by (intro C; apply Qmult_integral in C; destruct C; contradiction).
+    rewrite <- (Qdiv_scale (a * a * (a * a)) ((v1 / n1 + v2 / n2) * (v1 / n1 + v2 / n2))
+                 (v1 / n1 * (v1 / n1) / (n1 - 1) + v2 / n2 * (v2 / n2) / (n2 - 1)) H4).
+    unfold Qdiv. apply Qmult_comp; [ring|]. apply Qinv_comp. ring.
+Qed.
+(* one sample, mu0 mapped too *)
+Theorem one_sample_affine x mu0 : tout_rel tres_same (one_sample x mu0) (one_sample (map f x) (a * mu0 + b)).
+Proof.
+  unfold one_sample, f. rewrite !len_eqb_map.
+  destruct (length x =? 0)%nat eqn:E1; [reflexivity|].
+  assert (N1 : x <> []) by (destruct x; [discriminate E1 | discriminate]).
+  rewrite (is_zero_scale a _ _ Hane (w_variance_affine a b x)).
+  destruct (is_zero (w_variance x)); [reflexivity|].
+  cbn [tout_rel]. unfold tres_same. cbn [t_n1 t_n2 t_sign t_sq t_dof]. rewrite !zlen_map, !lenQ_map.
+  set (d := w_mean x - mu0). repeat split.
+  - rewrite <- (Qsign_scale a d Ha). apply Qsign_ext. unfold d. rewrite w_mean_affine by assumption. ring.
+  - rewrite !Qred_correct. rewrite w_mean_affine, w_variance_affine by assumption.
+    rewrite <- (Qdiv_scale (a * a) (d * d * lenQ x) (w_variance x) Haa).
+    unfold Qdiv. apply Qmult_comp; [unfold d; ring|]. reflexivity.
+Qed.
+End Affine.
+
+(* ---------- paired test: swap and affine maps act on the differences ---------- *)
+Lemma Qsum_ext l l' : Forall2 Qeq l l' -> Qsum l == Qsum l'.
+Proof. induction 1 as [|x y l l' H _ IH]; cbn [Qsum]; [reflexivity | now rewrite H, IH]. Qed.
+Lemma sumsq_ext l l' : Forall2 Qeq l l' -> sumsq l == sumsq l'.
+Proof. unfold sumsq. induction 1 as [|x y l l' H _ IH]; cbn [map Qsum]; [reflexivity | now rewrite H, IH]. Qed.
+Lemma Forall2_len {A B} (R : A -> B -> Prop) l l' : Forall2 R l l' -> length l = length l'.
+Proof. induction 1; cbn; auto. Qed.
+Lemma mean_def_ext l l' : Forall2 Qeq l l' -> mean_def l == mean_def l'.
+Proof. intros H. unfold mean_def, lenQ. now rewrite (Qsum_ext _ _ H), (Forall2_len _ _ _ H). Qed.
+Lemma var_def_ext l l' : Forall2 Qeq l l' -> var_def l == var_def l'.
+Proof.
+  intros H. unfold var_def. rewrite !ssd_expand, (mean_def_ext _ _ H), (Qsum_ext _ _ H), (sumsq_ext _ _ H).
+  unfold lenQ. now rewrite (Forall2_len _ _ _ H).
+Qed.
+Lemma w_mean_ext l l' : l <> [] -> Forall2 Qeq l l' -> w_mean l == w_mean l'.
+Proof.
+  intros N H. rewrite !w_mean_eq; auto; [now apply mean_def_ext|]. inversion H; subst; [congruence | discriminate].
+Qed.
+Lemma w_variance_ext l l' : Forall2 Qeq l l' -> w_variance l == w_variance l'.
+Proof.
+  intros H. pose proof (Forall2_len _ _ _ H) as L. destruct (Nat.le_gt_cases (length l) 1) as [C|C].
+  - unfold w_variance. rewrite <- L. apply Nat.leb_le in C. rewrite C. reflexivity.
+  - rewrite !w_variance_eq by lia. now apply var_def_ext.
+Qed.
+Lemma vdiff_affine a b x1 : forall x2,
+  Forall2 Qeq (vdiff (map (fun x => a * x + b) x1) (map (fun x => a * x + b) x2)) (map (fun d => a * d + 0) (vdiff x1 x2)).
+Proof. induction x1 as [|x t IH]; intros [|y u]; cbn [map vdiff]; constructor; [ring | apply IH]. Qed.
+Lemma vdiff_swap x1 : forall x2, Forall2 Qeq (vdiff x2 x1) (map (fun d => (-1) * d + 0) (vdiff x1 x2)).
+Proof. induction x1 as [|x t IH]; intros [|y u]; cbn [map vdiff]; constructor; [ring | apply IH]. Qed.
+Lemma vdiff_length_min a : forall b, length (vdiff a b) = Nat.min (length a) (length b).
+Proof. induction a as [|x a IH]; intros [|y b]; cbn; auto. Qed.
+
+(* a list that is pointwise c*d (+0) of the differences: mean scales by c, variance by c^2 *)
+Lemma scaled_diff c d d' : d <> [] -> Forall2 Qeq d' (map (fun z => c * z + 0) d) ->
+  w_mean d' == c * w_mean d /\ w_variance d' == c * c * w_variance d.
+Proof.
+  intros N H. split.
+  - assert (N' : d' <> []).
+    { intro C. subst d'. inversion H as [E|]. destruct d; [congruence | discriminate]. }
+    rewrite (w_mean_ext d' (map (fun z => c * z + 0) d) N' H). rewrite w_mean_affine by exact N. ring.
+  - rewrite (w_variance_ext _ _ H). apply w_variance_affine.
+Qed.
+
+Theorem paired_swap x1 x2 mu0 : tout_rel tres_swapped (paired x1 x2 mu0) (paired x2 x1 (- mu0)).
+Proof.
+  unfold paired. rewrite (Nat.eqb_sym (length x2)).
+  destruct (length x1 =? length x2)%nat eqn:E0; cbn [negb]; [|reflexivity].
+  apply Nat.eqb_eq in E0. rewrite <- E0. destruct (length x1 <=? 1)%nat eqn:E1; [reflexivity|].
+  apply Nat.leb_gt in E1.
+  assert (N : vdiff x1 x2 <> []).
+  { intro C. apply (f_equal (@length Q)) in C. rewrite vdiff_length_min, <- E0, Nat.min_id in C. cbn in C. lia. }
+  destruct (scaled_diff (-1) (vdiff x1 x2) (vdiff x2 x1) N (vdiff_swap x1 x2)) as [M V].
+  assert (Hm1 : ~ -1 == 0) by (intro C; discriminate C).
+  rewrite (is_zero_scale (-1) _ _ Hm1 V).
+  destruct (is_zero (w_variance (vdiff x1 x2))); [reflexivity|].
+  cbn [tout_rel]. unfold tres_swapped. cbn [t_n1 t_n2 t_sign t_sq t_dof].
+  assert (EL : lenQ x2 = lenQ x1) by (unfold lenQ; now rewrite E0).
+  repeat split.
+  - rewrite <- Qsign_opp. apply Qsign_ext. rewrite M. ring.
+  - rewrite !Qred_correct, M, V, EL. unfold Qdiv. apply Qmult_comp; [ring|]. apply Qinv_comp. ring.
+  - rewrite !Qred_correct, EL. reflexivity.
+Qed.
+
+Theorem paired_affine a b x1 x2 mu0 : 0 < a ->
+  tout_rel tres_same (paired x1 x2 mu0)
+                     (paired (map (fun x => a * x + b) x1) (map (fun x => a * x + b) x2) (a * mu0)).
+Proof.
+  intros Ha. unfold paired. rewrite !map_length.
+  destruct (length x1 =? length x2)%nat eqn:E0; cbn [negb]; [|reflexivity].
+  apply Nat.eqb_eq in E0. destruct (length x1 <=? 1)%nat eqn:E1; [reflexivity|]. apply Nat.leb_gt in E1.
+  assert (N : vdiff x1 x2 <> []).
+  { intro C. apply (f_equal (@length Q)) in C. rewrite vdiff_length_min, <- E0, Nat.min_id in C. cbn in C. lia. }
+  destruct (scaled_diff a (vdiff x1 x2) _ N (vdiff_affine a b x1 x2)) as [M V].
+  assert (Hane : ~ a == 0) by lra.
+  assert (Haa : ~ a * a == 0) by (intro C; apply Qmult_integral in C; destruct C; contradiction).
+  rewrite (is_zero_scale a _ _ Hane V).
+  destruct (is_zero (w_variance (vdiff x1 x2))); [reflexivity|].
+  cbn [tout_rel]. unfold tres_same. cbn [t_n1 t_n2 t_sign t_sq t_dof]. rewrite !zlen_map, !lenQ_map.
+  set (d := w_mean (vdiff x1 x2) - mu0). repeat split.
+  - rewrite <- (Qsign_scale a d Ha). apply Qsign_ext. rewrite M. unfold d. ring.
+  - rewrite !Qred_correct, M, V.
+    rewrite <- (Qdiv_scale (a * a) (d * d * lenQ x1) (w_variance (vdiff x1 x2)) Haa).
+    unfold Qdiv. apply Qmult_comp; [unfold d; ring|]. reflexivity.
+Qed.
